@@ -77,6 +77,7 @@ class CartesianCoordinates(OptCoordinates):
         return []
 
     def iadd(self, value: np.ndarray) -> OptCoordinates:
+        self.clear_tensors()  # Not valid at the shifted coordinates
         return np.ndarray.__iadd__(self, value)
 
     def to(self, value: str) -> OptCoordinates:
